@@ -102,7 +102,7 @@ func Main(defs []PropDef) {
 			// normalisation pipeline (last stage first, then the intermediate ones)
 			views := append([]*core.Program{prog.Inlined}, prog.Views...)
 			var alts []*core.Ctx
-			for _, view := range views {
+			for vi, view := range views {
 				if !c.Open() {
 					break
 				}
@@ -115,7 +115,7 @@ func Main(defs []PropDef) {
 					}()
 					d.Run(c2)
 				}()
-				if n := c.AdoptPassesKnown(c2, known); n > 0 {
+				if n := c.AdoptPassesKnown(c2, known, vi == 0); n > 0 {
 					c.Note("%d obligations discharged on a normalised view of the tree (new helpers expanded in place)", n)
 				}
 				alts = append(alts, c2)
